@@ -13,11 +13,12 @@ VARIABLE h
 svars == <<cur, last, h>>
 SimInit == /\ cur = RandomElement(Locs(K)) /\ last = <<"init">> /\ h = <<cur>>
 SameStrand == {o \in Operands : St(o) = St(cur)}
+(* each draw is bound by an existential over a singleton: RandomElement is evaluated once per bound variable *)
 SimStep ==
-  LET o == RandomElement(Operands) ms == RandomElement(BOOLEAN)
-      n == LenLoc(cur) a == RandomElement(0..n) b == RandomElement(a..n) rs == RandomElement({"+", "-"}) IN
+  \E o \in {RandomElement(Operands)} : \E ms \in {RandomElement(BOOLEAN)} : \E rs \in {RandomElement({"+", "-"})} :
+  \E a \in {RandomElement(0..LenLoc(cur))} : \E b \in {RandomElement(a..LenLoc(cur))} :
   \/ Sub(a, b, rs) \/ Optimize \/ OptimizeCombine \/ Gaps \/ Intersect(o, ms) \/ Minus(o, ms)
-  \/ (SameStrand # {} /\ Union(RandomElement(SameStrand)))
+  \/ (SameStrand # {} /\ \E u \in {RandomElement(SameStrand)} : Union(u))
 SimNext == SimStep /\ h' = Append(h, <<last', cur'>>)
 SimSpec == SimInit /\ [][SimNext]_svars
 Emit == (Len(h) = D + 1) => PrintT(<<"CHAIN", h>>)
